@@ -127,3 +127,224 @@ func vh_C07_compare() {
 	vReach("compared")
 	vAssert(rb.Val == want, "compare-matches-spec")
 }
+
+var vC07arith = []string{"+", "-", "*"}
+
+// vh_C07_arith: + - * on every pair of {int, char, float} kinds (and
+// uint64 with uint64) against Go's wrap-around / float64 semantics,
+// evaluated through the generator and the VM.
+func vh_C07_arith() {
+	env := NewZlispSandbox()
+	ka := vChoice("kindA", 4)
+	kb := vChoice("kindB", 4)
+	if (ka == 1) != (kb == 1) {
+		vDone() // mixing uint64 with other kinds is not specified by the statement
+	}
+	a := vNum(ka, "a")
+	b := vNum(kb, "b")
+	opi := vChoice("op", len(vC07arith))
+	op := vC07arith[opi]
+	res, err, panicked := vEval(env, vForm(env, op, a, b))
+	vAssert(!panicked, "arith-no-panic")
+	if panicked {
+		return
+	}
+	vAssert(err == nil, "arith-no-error")
+	if err != nil {
+		return
+	}
+	isFloat := ka == 3 || kb == 3
+	switch {
+	case isFloat:
+		fa, _ := vAsFloat(a)
+		fb, _ := vAsFloat(b)
+		var want float64
+		switch opi {
+		case 0:
+			want = fa + fb
+		case 1:
+			want = fa - fb
+		default:
+			want = fa * fb
+		}
+		r, isF := res.(*SexpFloat)
+		vAssert(isF, "mixed-arith-is-float")
+		if isF {
+			vAssert(r.Val == want || (r.Val != r.Val && want != want), "float-arith-value")
+		}
+	case ka == 1:
+		x, y := a.(*SexpUint64).Val, b.(*SexpUint64).Val
+		var want uint64
+		switch opi {
+		case 0:
+			want = x + y
+		case 1:
+			want = x - y
+		default:
+			want = x * y
+		}
+		r, isU := res.(*SexpUint64)
+		vAssert(isU, "uint-arith-is-uint")
+		if isU {
+			vAssert(r.Val == want, "uint-arith-wraps")
+		}
+	default:
+		var x, y int64
+		if ka == 0 {
+			x = a.(*SexpInt).Val
+		} else {
+			x = int64(a.(*SexpChar).Val)
+		}
+		if kb == 0 {
+			y = b.(*SexpInt).Val
+		} else {
+			y = int64(b.(*SexpChar).Val)
+		}
+		var want int64
+		switch opi {
+		case 0:
+			want = x + y
+		case 1:
+			want = x - y
+		default:
+			want = x * y
+		}
+		switch r := res.(type) {
+		case *SexpInt:
+			vAssert(r.Val == want, "int-arith-wraps")
+		case *SexpChar:
+			// char op char stays a char: the wrapped 64-bit result, truncated
+			vAssert(ka == 2 && kb == 2 || ka == 2, "char-result-only-for-char-lhs")
+			vAssert(int64(r.Val) == int64(rune(want)), "char-arith-value")
+		default:
+			vAssert(false, "int-arith-is-int")
+		}
+	}
+	vReach("arith")
+}
+
+// vh_C07_div: integer division is exact when it divides and floating
+// otherwise; division by zero is an error, not a crash.
+func vh_C07_div() {
+	env := NewZlispSandbox()
+	ka := vChoice("kindA", 2) // 0 int, 1 uint64
+	var a, b Sexp
+	if ka == 0 {
+		a, b = vNum(0, "a"), vNum(0, "b")
+	} else {
+		a, b = vNum(1, "a"), vNum(1, "b")
+	}
+	res, err, panicked := vEval(env, vForm(env, "/", a, b))
+	vAssert(!panicked, "div-no-panic")
+	if panicked {
+		return
+	}
+	if ka == 0 {
+		x, y := a.(*SexpInt).Val, b.(*SexpInt).Val
+		if y == 0 {
+			vReach("div-by-zero")
+			vAssert(err != nil, "div-by-zero-is-error")
+			return
+		}
+		vAssert(err == nil, "div-no-error")
+		if err != nil {
+			return
+		}
+		if x%y == 0 {
+			r, isI := res.(*SexpInt)
+			vAssert(isI, "exact-div-is-int")
+			if isI {
+				vAssert(r.Val == x/y, "exact-div-value")
+			}
+		} else {
+			r, isF := res.(*SexpFloat)
+			vAssert(isF, "inexact-div-is-float")
+			if isF {
+				vAssert(r.Val == float64(x)/float64(y), "inexact-div-value")
+			}
+		}
+	} else {
+		x, y := a.(*SexpUint64).Val, b.(*SexpUint64).Val
+		if y == 0 {
+			vAssert(err != nil, "div-by-zero-is-error")
+			return
+		}
+		vAssert(err == nil, "div-no-error")
+		if err != nil {
+			return
+		}
+		if x%y == 0 {
+			r, isU := res.(*SexpUint64)
+			vAssert(isU, "exact-div-is-uint")
+			if isU {
+				vAssert(r.Val == x/y, "exact-div-value")
+			}
+		} else {
+			r, isF := res.(*SexpFloat)
+			vAssert(isF, "inexact-div-is-float")
+			if isF {
+				vAssert(r.Val == float64(x)/float64(y), "inexact-div-value")
+			}
+		}
+	}
+	vReach("div")
+}
+
+// vh_C07_divfloat: mixed integer/float division is carried out in float64.
+func vh_C07_divfloat() {
+	env := NewZlispSandbox()
+	ka := vChoice("kindA", 3)
+	kb := vChoice("kindB", 3)
+	kinds := []int{0, 2, 3}
+	if kinds[ka] != 3 && kinds[kb] != 3 {
+		vDone()
+	}
+	a := vNum(kinds[ka], "a")
+	b := vNum(kinds[kb], "b")
+	res, err, panicked := vEval(env, vForm(env, "/", a, b))
+	vAssert(!panicked, "fdiv-no-panic")
+	if panicked {
+		return
+	}
+	vAssert(err == nil, "fdiv-no-error")
+	if err != nil {
+		return
+	}
+	fa, _ := vAsFloat(a)
+	fb, _ := vAsFloat(b)
+	want := fa / fb
+	r, isF := res.(*SexpFloat)
+	vAssert(isF, "fdiv-is-float")
+	if isF {
+		vAssert(r.Val == want || (r.Val != r.Val && want != want), "fdiv-value")
+	}
+	vReach("fdiv")
+}
+
+// vh_C07_mod: modulo by zero is an error rather than a crash; otherwise
+// Go's remainder.
+func vh_C07_mod() {
+	env := NewZlispSandbox()
+	a, b := vNum(0, "a"), vNum(0, "b")
+	res, err, panicked := vEval(env, vForm(env, "mod", a, b))
+	vAssert(!panicked, "mod-no-panic")
+	if panicked {
+		return
+	}
+	x, y := a.(*SexpInt).Val, b.(*SexpInt).Val
+	if y == 0 {
+		vReach("mod-by-zero")
+		vAssert(err != nil, "mod-by-zero-is-error")
+		return
+	}
+	vAssert(err == nil, "mod-no-error")
+	if err != nil {
+		return
+	}
+	r, isI := res.(*SexpInt)
+	vAssert(isI, "mod-is-int")
+	if isI {
+		vAssert(r.Val == x%y, "mod-value")
+	}
+	vReach("mod")
+}
